@@ -84,7 +84,7 @@ type MCall struct {
 	// Limbo: the callee answered finally while the caller was still sending chunks. The call is
 	// complete (no time-out, nothing to cancel); what further chunks and the departure of
 	// either side then cause is not specified and left open.
-	Limbo bool
+	Limbo    bool
 	Done     bool
 	Deadline int64 // virtual ms at which the router ends the call (0: no router-side timeout)
 	Timeout  int64
